@@ -4,7 +4,8 @@ h_thread runs a loop thread sleeping on a one-hour timer and 1..6 workers that
 call event_add/del/active, loopbreak/loopexit, bufferevent_write/enable/disable,
 evbuffer_add/remove on shared objects (real clock, real threads).  Oracles in the
 harness: ticket protocol (every cross-thread activation/add/loopbreak/write is
-acted on; 15 s watchdog => re-run once => lost-wakeup), del-waits (in_cb == 0
+acted on; 15 s watchdog => re-run once => lost-wakeup), loop-iteration monitor
+(the loop blocks again after a serviced wake-up; NONBLOCK loop returns), del-waits (in_cb == 0
 right after event_del returns in the owning worker, no callback entry until it
 re-arms), conservation of tickets / bytes.  ThreadSanitizer reports are keyed
 here by the first library frame of the two racing stacks.
@@ -34,6 +35,8 @@ REG = dict(
           "event_active, event_add(10 ms), event_add(ready fd), loopbreak/loopexit and bufferevent_write carries a ticket that the "
           "sleeping loop (one-hour timer) must act on; event_del/event_del_block returning in a worker must find the callback not "
           "running and no callback may start before the worker re-arms the event; ticket, byte and evbuffer-length conservation; "
+          "after a serviced wake-up with nothing else posted the loop must block again (a prepare watcher counts iterations over a "
+          "quiet period: at most 50) and event_base_loop(EVLOOP_NONBLOCK) run after the cross-thread traffic must return; "
           "every ThreadSanitizer report with a library frame is a violation."),
     note=("Schedules are sampled, not enumerated; a race that needs a window the delay injection does not open can be missed. The "
           "lost-wakeup verdict needs the 15 s watchdog to fire twice for the same case (re-run), all other verdicts are logical. "
@@ -94,7 +97,8 @@ def run(tier, seed):
     return generic.run_spec("C09", tier, seed, STEPS, RULE,
                             required=["tickets_issued", "tickets_awaited_and_serviced", "tickets_cancelled_by_del", "event_del_calls_checked",
                                       "event_del_while_callback_running", "loopbreak_tickets", "bufferevent_writes", "cases_solo", "cases_storm",
-                                      "slow_callbacks"],
+                                      "slow_callbacks", "quiet_period_checks", "nonblock_loop_returned_checks", "cases_epoll", "cases_poll",
+                                      "cases_select", "cases_pipe_notify"],
                             assumptions=["real scheduler: the explored interleavings are those the OS and the injected delays produce",
                                          "TSan models pthread mutexes/condvars (evthread_use_pthreads or the pthread-based lock monitor)"],
                             post=post)
